@@ -238,6 +238,12 @@ func aliasWhy(e *yang.EnumType, h *handed) string {
 	if p := mapPtr(h.vm); p != 0 && (p == mapPtr(e.ToString) || p == mapPtr(e.ValueMap())) {
 		why = append(why, "ValueMap() hands out the table / the same map again, not a copy of the caller's own")
 	}
+	if again := e.Names(); cap(h.names) > 0 && cap(again) > 0 && &h.names[:1][0] == &again[:1][0] {
+		why = append(why, "Names() hands out the same slice again, not a copy of the caller's own")
+	}
+	if again := e.Values(); cap(h.values) > 0 && cap(again) > 0 && &h.values[:1][0] == &again[:1][0] {
+		why = append(why, "Values() hands out the same slice again, not a copy of the caller's own")
+	}
 	if len(why) == 0 {
 		return "an object handed out by NameMap/ValueMap/Names/Values is shared with the table"
 	}
